@@ -1,14 +1,19 @@
 #!/bin/sh
 # usage: tools/all_mutants.sh  -- every stored seeded change against the quick check of its property
+# (with VERIF_REPO set, the checkout the changes are applied to and the checks read; default /repo).
 # evidence files are rewritten by every run: keep the clean-tree ones aside and put them back afterwards
-rm -rf /root/scratch/evidence.keep && mkdir -p /root/scratch && cp -r /verif/evidence /root/scratch/evidence.keep
-cd /verif
+cd "$(dirname "$0")/.."
+V=$(pwd)
+R=${VERIF_REPO:-/repo}
+export GOFLAGS=-mod=mod GOPROXY=off GOSUMDB=off GOTOOLCHAIN=local
+[ -x ocaml/modelrun ] || ./setup.sh > .work-setup.log 2>&1 || { echo "setup failed"; tail -20 .work-setup.log; exit 1; }
+rm -rf .evidence.keepm && cp -r evidence .evidence.keepm
 for d in seeded/*/; do
   n=$(basename $d); id=$(python3 -c "import json;print(json.load(open('$d/meta.json'))['property'])")
-  cd /repo && git apply /verif/$d/patch.diff || { echo "$n: patch does not apply"; cd /verif; continue; }
-  cd /verif
+  git -C "$R" apply "$V/$d/patch.diff" || { echo "$n: patch does not apply"; continue; }
   if ./check $id 2>&1 | grep -q "^VIOLATION property=$id"; then echo "$n: DETECTED by $id"; else echo "$n: MISSED by $id"; fi
-  cd /repo && git checkout -- . ; cd /verif
+  git -C "$R" checkout -- .
 done
-git -C /repo status --short | head -3
-rm -rf /verif/evidence && cp -r /root/scratch/evidence.keep /verif/evidence
+git -C "$R" status --short | head -3
+rm -rf evidence && mv .evidence.keepm evidence
+echo ALLDONE
